@@ -344,8 +344,11 @@ impl<T> Drop for Vec<T> {
         for (i, bucket) in self.buckets.iter_mut().enumerate() {
             let entries = *bucket.entries.get_mut();
 
+            // buckets are not necessarily allocated in order: `extend` pre-allocates the
+            // bucket after its last entry first and an iterator that yields fewer items than
+            // it reported (or a panicking callback) leaves earlier buckets unallocated
             if entries.is_null() {
-                break;
+                continue;
             }
 
             let len = Location::bucket_len(i as u32);
